@@ -54,6 +54,9 @@ CHECKS = {
  "C18": dict(tech="static analysis: interval abstract interpretation over SSA integer operations (TimevalFromNsec), paired-store rule, codec table for the 48-bit timestamp, linear-form / single-division recognisers for the CSPTP formulas, constant agreement for ppm scaling",
    text="Finite/structural clauses decided exactly: Usec in [0,10^9) for every int64 input (sound intervals) with the -1/+10^9 fix-up paired on one edge over quotient/remainder by 10^9; 48-bit timestamp packing agrees both ways with range guards; ClockOffset/MeanPathDelay are a single division by two of the right integer combination, C2S/S2C delays their linear forms, correction fields >>16; one 65536e6 factor both ways; Drift = Duration(d.Seconds()*drift). The relational identity sec*1e9+usec==n and float rounding are not decided.",
    ref="DESIGN.md §4 C18"),
+ "C15": dict(tech="static analysis: provenance of the fingerprint comparison, removal-idiom recogniser, armed reset path queries, argument provenance for crypto.Sample, reservoir-shape recogniser, error gates on SSA",
+   text="Narrow structural clauses decided exactly: previous path matched against the fingerprint of the candidate currently at ps[j]; a match swap-removes that element, assigns it, ends the search; a client left without path passes ResetInterleavedMode and Filter.Reset (unless nil); Sample(k = clients without path, n = remaining candidates, overwrite callback) and Sample itself has the reservoir shape with k capped at n and errors propagated; Sample error and nsps+n==0 (errNoPath) stop the round; worker i gets client i and path i; result = FaultTolerantMidpoint of the collected slice. Distinctness/uniformity as value or probability properties are not decided.",
+   ref="DESIGN.md §4 C15"),
 }
 NA = {
  "C04": "all clauses are value arithmetic over time.Time/uint32 (truncation direction, era unfolding, order preservation); no structural or finite-domain clause; matching the constants would be a frozen-fragment proxy",
